@@ -34,7 +34,7 @@ ASSUMPTIONS = [
 ]
 CONFIG = {
     "quick": {"examples": 200, "shards": 16, "shrink_s": 30, "time_budget_s": 240},
-    "thorough": {"examples": 3000, "shards": 16, "shrink_s": 120, "time_budget_s": 3000},
+    "thorough": {"examples": 3000, "shards": 16, "shrink_s": 120, "time_budget_s": 1500},
 }
 EXHAUSTIVE = {
     "quick": "all histories over {1,2,3} of length <= 6 (jax scalars <= 4) x patience 0..3 x min_delta {0,0.5,1} x {train,val} x 4 scalar representations; EpochStop n in 0..6",
